@@ -55,17 +55,74 @@ def _on_alarm(_sig, _frm):
     raise WatchdogTimeout()
 
 
+EXPIRIES = [0]            # how many times the watchdog fired in this process
+LEASH_AFTER, SHORT_LEASH_S, GIVE_UP_AFTER = 3, 2, 10
+HARD_DEADLINE_S = 90      # a hang the interpreter cannot interrupt (inside C code): verdict and exit instead of a dead check
+CURRENT = [None]          # the case being run, for the hard-deadline verdict
+ACTIVE = [0]
+
+
+def leash(seconds):
+    """the time a call may take: generous at first, short once several calls have hung (a check must end with a verdict
+    in minutes even when MANY cases hang)"""
+    return seconds if EXPIRIES[0] < LEASH_AFTER else min(seconds, SHORT_LEASH_S)
+
+
+def _hard_deadline():
+    """last resort, from a timer thread: the main thread is stuck where signals are not delivered"""
+    import json
+    import os
+    import sys
+    from . import sx as _sx
+    try:
+        d = os.path.join(os.path.dirname(os.path.dirname(os.path.dirname(os.path.abspath(__file__)))), "replays", "C06")
+        os.makedirs(d, exist_ok=True)
+        path = os.path.join(d, "hang.json")
+        with open(path, "w") as fh:
+            json.dump(dict(property="C06", failure="hang: the implementation did not return and could not be interrupted",
+                           input_sx=_sx.to_text(_sx.norm(CURRENT[0])) if CURRENT[0] is not None else None), fh)
+        faulthandler.dump_traceback(file=sys.stderr)
+        print("VIOLATION property=C06 replay=replays/C06/hang.json", flush=True)
+    finally:
+        os._exit(1)
+
+
 @contextlib.contextmanager
 def watchdog(seconds=WATCHDOG_S):
+    import threading
+    seconds = leash(seconds)
+    ACTIVE[0] += 1
     old = signal.signal(signal.SIGALRM, _on_alarm)
     signal.setitimer(signal.ITIMER_REAL, seconds)
-    faulthandler.dump_traceback_later(seconds * 6, exit=True)
+    hard = threading.Timer(HARD_DEADLINE_S, _hard_deadline)
+    hard.daemon = True
+    hard.start()
     try:
         yield
+    except WatchdogTimeout:
+        EXPIRIES[0] += 1
+        raise
     finally:
+        ACTIVE[0] -= 1
         signal.setitimer(signal.ITIMER_REAL, 0)
-        faulthandler.cancel_dump_traceback_later()
+        hard.cancel()
         signal.signal(signal.SIGALRM, old)
+
+
+def _expired():
+    """a call timed out and the event was recorded: count it and re-arm the timer for what the enclosing watchdog still runs"""
+    EXPIRIES[0] += 1
+    if ACTIVE[0] > 0:
+        signal.setitimer(signal.ITIMER_REAL, leash(WATCHDOG_S))
+
+
+def guarded(fn, on_hang):
+    """run fn() under its own watchdog; on_hang when it does not return in time"""
+    try:
+        with watchdog():
+            return fn()
+    except WatchdogTimeout:
+        return on_hang
 
 
 def canon_packet(p) -> bytes:
@@ -162,12 +219,15 @@ def make_inner(name, debug=False):
     if name == b"pickle":
         from easynetwork.serializers.pickle import PickleSerializer
         return PickleSerializer(unpickler_cls=RestrictedUnpickler, debug=debug)
+    if name == b"line":
+        from easynetwork.serializers.line import StringLineSerializer
+        return StringLineSerializer("LF", encoding="ascii", debug=debug)
     if name == b"bytes":
         return BytesPassThrough()
     raise ValueError(name)
 
 
-INNER_FAM = {b"json": 1, b"pickle": 5, b"bytes": 9}
+INNER_FAM = {b"json": 1, b"pickle": 5, b"bytes": 9, b"line": 0}
 
 
 def make_serializer(family, cfg, impl):
@@ -228,6 +288,7 @@ def _event(fn):
     except RuntimeError:
         return [2], True
     except WatchdogTimeout:
+        _expired()
         return [8], True
     except Exception as exc:      # any other class leaving next(): never produced by the model
         return [9, excodes.code_of(type(exc))], True
@@ -333,6 +394,7 @@ def run_oneshot(serializer, data):
     except DeserializeError:
         return [1]
     except WatchdogTimeout:
+        _expired()
         return [8]
     except Exception as exc:
         return [2, excodes.code_of(type(exc))]
@@ -345,6 +407,7 @@ def run_dgram(serializer, data):
     except DatagramProtocolParseError:
         return [1]
     except WatchdogTimeout:
+        _expired()
         return [8]
     except Exception as exc:
         return [2, excodes.code_of(type(exc))]
@@ -355,22 +418,45 @@ HAS_COPY = {0, 1, 2, 3, 4, 6, 7}
 HAS_BUF = {0, 3, 4, 6, 7}
 
 
+HUNG = {}                 # (family, implementation name) -> number of cases of that configuration that hung
+
+
+def _has_hang(out):
+    if isinstance(out, list):
+        return out == [8] or any(_has_hang(x) for x in out)
+    return False
+
+
 def run_impl(inp):
     kind = inp[0]
-    with watchdog():
+    CURRENT[0] = inp
+    hung_round = [[0, [[8]], b""]]
+    if kind == 20:
+        _k, family, cfg, _tabs, data, chunks, hint, impl = inp[:8]
+    else:
+        _k, cfg0, _tabs, chunks, impl = inp[:5]
+        family, cfg, hint = simple_family(kind, cfg0, impl)
+    key = (family, bytes(impl[0]))
+    if HUNG.get(key, 0) >= LEASH_AFTER and EXPIRIES[0] >= GIVE_UP_AFTER:
+        # hanging is established for this serializer: answer at once (an outcome the model never produces)
         if kind == 20:
-            _k, family, cfg, _tabs, data, chunks, hint, impl = inp[:8]
-            out = [run_oneshot(make_serializer(family, cfg, impl), data),
-                   run_dgram(make_serializer(family, cfg, impl), data)]
-            out.append(run_copy(make_serializer(family, cfg, impl), chunks) if family in HAS_COPY else [])
-            out.append(run_buffered(make_serializer(family, cfg, impl), hint, chunks) if family in HAS_BUF and hint > 0 else [])
-            return out
-        _k, cfg, _tabs, chunks, impl = inp[:5]
-        family, fcfg, hint = simple_family(kind, cfg, impl)
-        ser = make_serializer(family, fcfg, impl)
+            return [[8], [8], hung_round if family in HAS_COPY else [], hung_round if family in HAS_BUF and hint > 0 else []]
+        return hung_round
+    if kind == 20:
+        out = [guarded(lambda: run_oneshot(make_serializer(family, cfg, impl), data), [8]),
+               guarded(lambda: run_dgram(make_serializer(family, cfg, impl), data), [8])]
+        out.append(guarded(lambda: run_copy(make_serializer(family, cfg, impl), chunks), hung_round) if family in HAS_COPY else [])
+        out.append(guarded(lambda: run_buffered(make_serializer(family, cfg, impl), hint, chunks), hung_round)
+                   if family in HAS_BUF and hint > 0 else [])
+    else:
+        ser = make_serializer(family, cfg, impl)
         if kind in (4, 5, 7):
-            return run_copy(ser, chunks)
-        return run_buffered(ser, hint, chunks)
+            out = guarded(lambda: run_copy(ser, chunks), hung_round)
+        else:
+            out = guarded(lambda: run_buffered(ser, hint, chunks), hung_round)
+    if _has_hang(out):
+        HUNG[key] = HUNG.get(key, 0) + 1
+    return out
 
 
 def simple_family(kind, cfg, impl):
@@ -455,7 +541,17 @@ def pickle_answer(data: bytes):
     return [0, a[1]]
 
 
+def inner_key(inner: bytes, data: bytes) -> bytes:
+    """what the inner serializer hands to its library call: the line serializer first strips trailing separators"""
+    if inner == b"line":
+        while data.endswith(b"\n"):
+            data = data.removesuffix(b"\n")
+    return bytes(data)
+
+
 def inner_answer(inner: bytes, data: bytes):
+    if inner == b"line":
+        return str_answer(inner_key(inner, data), "ascii")
     if inner == b"json":
         return json_answer(data)
     if inner == b"pickle":
@@ -585,7 +681,7 @@ def tabulate(family, cfg, impl, data, chunks, hint):
             sep = cfg[0]
             keys = _sep_payloads(stream, sep, False, _starts(family, cfg, impl, stream, chunks, hint)) + [data]
             t1 = _merge((k, b64_answer(k, impl[1], bool(impl[2]))) for k in keys)
-            t2 = _merge((row[1][1], inner_answer(impl[3], row[1][1])) for row in t1 if row[1][0] == 0)
+            t2 = _merge((inner_key(impl[3], row[1][1]), inner_answer(impl[3], row[1][1])) for row in t1 if row[1][0] == 0)
             return [t1, t2]
         if family == 5:
             return _merge([(data, pickle_load_answer(data))])
@@ -596,7 +692,7 @@ def tabulate(family, cfg, impl, data, chunks, hint):
             if hint > 0:
                 run_buffered(_recording_compressor(cfg, impl, log), hint, chunks)
             t1 = _merge(log)
-            t2 = _merge((row[1][1], inner_answer(impl[1], row[1][1])) for row in t1 if row[1][0] == 1)
+            t2 = _merge((inner_key(impl[1], row[1][1]), inner_answer(impl[1], row[1][1])) for row in t1 if row[1][0] == 1)
             return [t1, t2]
         if family == 7:
             log = []
@@ -608,15 +704,31 @@ def tabulate(family, cfg, impl, data, chunks, hint):
     raise ValueError(family)
 
 
+def _tabulate_or_empty(family, cfg, impl, data, chunks, hint):
+    key = (family, bytes(impl[0]))
+    if HUNG.get(key, 0) >= LEASH_AFTER and EXPIRIES[0] >= GIVE_UP_AFTER:
+        return []
+    before = EXPIRIES[0]
+    try:
+        tabs = tabulate(family, cfg, impl, data, chunks, hint)
+    except WatchdogTimeout:
+        tabs = []
+    if EXPIRIES[0] > before:
+        HUNG[key] = HUNG.get(key, 0) + 1
+    return tabs
+
+
 def make_case(family, cfg, impl, data, chunks, hint):
-    return [20, family, cfg, tabulate(family, cfg, impl, data, chunks, hint), data, chunks, hint, impl]
+    return [20, family, cfg, _tabulate_or_empty(family, cfg, impl, data, chunks, hint), data, chunks, hint, impl]
 
 
 def simple_tabs(kind, cfg, impl, chunks):
     """`tabs` of a kind 4..8 case (declared failures only, as Run/Stream.v's dec)."""
     family, fcfg, hint = simple_family(kind, cfg, impl)
     stream = b"".join(chunks)
-    full = tabulate(family, fcfg, impl, stream, chunks, hint)
+    full = _tabulate_or_empty(family, fcfg, impl, stream, chunks, hint)
+    if full == []:
+        return []
 
     def plain(rows):
         return [[k, ([0, a[1]] if a[0] == 0 else [1])] for k, a in rows]
